@@ -210,6 +210,9 @@ impl Scenario for CryptSc {
     }
     fn run(&self, plan: &Plan, env: &Env, rec: &mut Rec) {
         let lib = env.cur;
+        // payloads of 64..256 MiB: one such run at a time in the process (a run holds several copies of its payload)
+        static HUGE: std::sync::Mutex<()> = std::sync::Mutex::new(());
+        let _one_at_a_time = if plan.class.ends_with("-huge") { Some(HUGE.lock().unwrap_or_else(|e| e.into_inner())) } else { None };
         let base_class = match plan.class.as_str() {
             "td-extremes" => "td-protocol",
             "eg-extremes" => "eg-tally",
